@@ -35,7 +35,7 @@ FUZZ = {"quick": 3200, "thorough": 120000}  # executions of the coverage-guided 
 SHRINK_SECONDS = {"quick": 30, "thorough": 150}
 RULE = (
     "case = (program, block grid, block sizes, number of infinite dimensions, input value salt, scope functions and "
-    "flags, request schedule over all series) or (shipped algorithm, problem, flag variant). Non-trivial (programs) = "
+    "flags, request schedule over all series; every scheduled element is also read from the linear-operator twin series) or (shipped algorithm, problem, flag variant). Non-trivial (programs) = "
     "the program has a product, a marker, a term the compiler deletes after its single use, and the schedule asks a "
     "non-output series after an output; (shipped) = >= 2 blocks and order >= 2 values compared."
 )
